@@ -59,6 +59,13 @@ where
             return Err(InvalidView);
         }
 
+        // The checksum only covers the bytes that are there: a payload shorter than the
+        // fixed-size root of `T` (e.g. an empty body, whose CRC is 0) would otherwise be
+        // cast to a view reaching outside of the buffer.
+        if data_bytes.len() < mem::size_of::<T::Archived>() {
+            return Err(InvalidView);
+        }
+
         let view = unsafe { rkyv::archived_root::<T>(data_bytes) };
 
         Ok(Self { data, view })
